@@ -200,12 +200,12 @@ template<int D>
 void run_d(Input const& in, Ctx& ctx) {
 	auto r = vp::decode_root<D, false>(in, ctx);
 	r.kind = (r.kind % 3 == 0) ? vp::RK_ARRAY : (r.kind % 3 == 1 ? vp::RK_STATIC : vp::RK_REF);
-	vp::with_root<vp::CfgRaw, int, D>(r, [&](auto& root, Model m, int const* base, long N) {
+	vp::with_root<vp::CfgRaw, int, D, true>(r, [&](auto& root, Model m, int const* base, long N) {
 		auto* wbase = const_cast<int*>(base);
 		unsigned s = in.head(9);
 		for(long i = 0; i < N; ++i) { s = s*1103515245U + 12345U; wbase[i] = static_cast<int>((s >> 16U) % 16U); }  // small alphabet: 4 keys x 4 tags, duplicates are the point
 		Fin fin{wbase, N, ctx, in};
-		vp::Interp<Fin, false, 3> interp(in, ctx, fin);
+		vp::Interp<Fin, false, 3, false, true> interp(in, ctx, fin);
 		interp.null_root = (N == 0); interp.no_const = true;
 		vp::check_shape(root, m, "construction");
 		interp.step(root, m);
